@@ -79,8 +79,11 @@ CHECKS = {
                 "synthetic division), recovery from any collection with t distinct points (order, duplicates, surplus), refusal of too few / "
                 "unequal / threshold 0, dealer structure (constant terms = decoded secret elements, other coefficients = consecutive draws), "
                 "refusal of out-of-range secrets, non-zero random points. The model IS the independent big-integer implementation; it is "
-                "compared bit-exactly with the Rust under a recorded random source on every run.",
-        "note": "Trusted: Coq kernel, extraction, harness, the model's reading of ff_derive's random (validated by correspondence).",
+                "compared bit-exactly with the Rust under a recorded random source on every run. In addition the evaluation and interpolation "
+                "loops instantiated with the limb operations that ff_derive generates (translated from the macro-expanded source) are proved to "
+                "return, for all inputs, the Montgomery form of what the big-integer instantiation returns (C06_limbs_evaluate, "
+                "C06_limbs_interpolate), and the unwrap inside interpolate is proved unreachable.",
+        "note": "Trusted: Coq kernel, extraction, harness, gen_limbs.py, the model's reading of ff_derive's random (validated by correspondence).",
     },
     "C07": {
         "text": "prime(2^128+12451) by a kernel-checked Pratt certificate; Fp is a field (field_theory), inversion/pow/sqrt meet their "
